@@ -638,4 +638,36 @@ Section Sound2.
       + eapply (leaf_sp_sound ix unicode h body sp p q'); eauto.
       + inversion Hr; subst. contradiction.
   Qed.
+
+  (* ---- a start-anchored pattern only succeeds where start_of_line (non-multiline) holds ---- *)
+  Theorem ir_anchored : forall f n p G l,
+    is_start_anchored n = true -> ir_results ix unicode utf16 h f n true (p, G) = Some l -> l <> [] ->
+    start_of_line ix false h p = Ok true.
+  Proof.
+    induction f as [|f IHf]; intros n p G l Ha Hr Hne; [discriminate|].
+    destruct n as [ | |c|bs|bs|cs|l0|a b| | |sol ml|inv ui|id c nm|g ic|b|alts icase|ng bw sg eg c|body mn mx gr egs ege|body mn mx gr];
+      simpl in Ha; try discriminate.
+    - (* Cat *)
+      destruct l0 as [|x t]; [discriminate|]. cbn [ir_results cat_results obindm] in Hr.
+      destruct (ir_results ix unicode utf16 h f x true (p, G)) as [r|] eqn:Ex; [|discriminate Hr].
+      rewrite app_nil_r in Hr.
+      eapply (IHf x p G r); eauto.
+      intro He. subst r. rewrite cat_results_nil in Hr. inversion Hr; subst. contradiction.
+    - (* Alt *)
+      apply andb_true_iff in Ha as [Ha1 Ha2]. cbn [ir_results] in Hr.
+      destruct (ir_results ix unicode utf16 h f a true (p, G)) as [u|] eqn:Eu; [|discriminate].
+      destruct (ir_results ix unicode utf16 h f b true (p, G)) as [v|] eqn:Ev; [|discriminate].
+      inversion Hr; subst l. destruct u as [|y0 u'].
+      + simpl in Hne. eapply (IHf b); eauto.
+      + eapply (IHf a); eauto. discriminate.
+    - (* Anchor *)
+      destruct sol; [|discriminate]. apply negb_true_iff in Ha. subst ml. cbn [ir_results] in Hr.
+      destruct (start_of_line ix false h p) as [e|[|]]; simpl in Hr; inversion Hr; subst; [reflexivity|contradiction].
+    - (* CaptureGroup *)
+      cbn [ir_results] in Hr.
+      destruct (upd_group id (set_group_start true p) G) as [G1|]; [|discriminate].
+      destruct (ir_results ix unicode utf16 h f c true (p, G1)) as [lc|] eqn:Ec; [|discriminate].
+      destruct (obindm_nonempty _ lc l Hr Hne) as (y & r & Hin & _ & _).
+      eapply (IHf c p G1 lc); eauto. intro He. subst lc. contradiction.
+  Qed.
 End Sound2.
